@@ -12,10 +12,11 @@ modes (`a = false`: operations performed by plain code, `a = true`: by a corouti
 and *every* operation list — so any number of handles, across the inline→heap transition and every doubling.
 
 Explicit preconditions: operations on a slot that holds no object (or constructing into an occupied slot, or
-`typed = std::move(untyped)`, which does not compile) are refused (`Res.bad`, no effect); `c06_await` assumes that the
-awaiting coroutine's own handle is neither in the awaited suspend point nor already queued.  Merging a suspend point
-into itself is a no-op since the `fix:` commit (`c06_self_merge_noop`; the pinned code lost every handle:
-`c06_asis_self_assign_loses_handles`).
+`typed = std::move(untyped)`, which does not compile) are refused (`Res.bad`, no effect); the `co_await` theorems assume
+that the awaiting coroutine is not already waiting in the ready queue.  The awaiting coroutine's own handle may be
+inside the awaited suspend point in any position (`c06_await_own_handle`).  Two defects of the pinned commit are kept as
+as-is variants with `decide` witnesses: self-merge (`c06_asis_self_assign_loses_handles`) and own handle last
+(`c06_asis_await_own_handle_last_resumed_twice`); both repaired by `fix:` commits and modelled as repaired.
 -/
 namespace Cocls.SP
 
@@ -228,7 +229,7 @@ theorem c06_await {n : Nat} {a : Bool} {s : State} (h : Reachable n a s) {i : Na
         have hpv : ¬ popValue s o = me := by
           intro e; apply hme; rw [h1, e]; simp
         simp only [if_neg hpv]
-        have hE : awaitExtra s o me = [me] := by simp [awaitExtra, hrest]
+        have hE : awaitExtra s o me = [me] := by simp [awaitExtra, hrest, hpv]
         rw [hE] at hqq
         generalize hY : resumeAll (awaitQueue s i o me) [popValue s o] = Y at g1 g2 hqq hr
         have hnot : me ∉ s.queue ++ handlesOf s { o with cf := o.cf - 2 } := by
@@ -251,7 +252,9 @@ theorem c06_await {n : Nat} {a : Bool} {s : State} (h : Reachable n a s) {i : Na
           intro hm; apply hme; rw [h1']; simp [hm]
         have hE : awaitExtra { s with active := true } o me = [me] := by
           have : handlesOf { s with active := true } { o with cf := o.cf - 2 } = handlesOf s { o with cf := o.cf - 2 } := rfl
-          simp [awaitExtra, this, hrest]
+          have hpv0 : ¬ popValue { s with active := true } o = me := by
+            intro e; apply hme; rw [h1']; simp [show popValue s o = me from e]
+          simp [awaitExtra, this, hrest, hpv0]
         rw [hE] at hqq
         have hq0 : s.queue = [] := I.idle ha'
         have hpv : popValue { s with active := true } o = popValue s o := rfl
@@ -272,9 +275,8 @@ the awaiting coroutine a second time: nothing new is handed in (`given` unchange
 resumed, exactly once.  Precisely: the last handle runs first, then what was queued, then the remaining handles up
 to and including the (first) own handle, at which point `me` continues; in coroutine mode the handles behind the
 own one are still queued, in that order; in normal mode (the queue is flushed before `co_await` returns to plain
-code) all of them have run.  (Own handle *last* is outside the contract: the unchanged code then transfers to `me`
-and queues it as well.) -/
-theorem c06_await_own_handle {n : Nat} {a : Bool} {s : State} (h : Reachable n a s) {i : Nat} {o : Obj}
+code) all of them have run.  (Own handle *last*: `c06_await_own_handle_last`.) -/
+theorem c06_await_own_handle_not_last {n : Nat} {a : Bool} {s : State} (h : Reachable n a s) {i : Nat} {o : Obj}
     (hi : s.obj i = some o) (me : Ptr) (hq : me ∉ s.queue) :
     ∀ rest last, handles s i = rest ++ [last] → me ∈ rest → last ≠ me →
       (step s (Op.await i me)).1.given = s.given
@@ -355,6 +357,112 @@ theorem c06_await_own_handle {n : Nat} {a : Bool} {s : State} (h : Reachable n a
     · rw [handles_of_eq (s' := { flushAll Y with active := false }) (s := Y) rfl rfl]; exact g1
     · intro k hk; rw [handles_of_eq (s' := { flushAll Y with active := false }) (s := Y) rfl rfl]; exact g2 k hk
     · rw [hres]; show _ ++ [] = _; rw [hq0]; simp
+
+/-- `co_await sp` by a coroutine whose **own handle is the last one** (`suspend_point<void> me = co_await self();
+co_await me;`, or the own handle added last): `pop()` takes the own handle for the symmetric transfer, the guard of the
+repaired `await_suspend` starts from the popped handle, so the awaiting coroutine is resumed exactly once — by the
+transfer — and is *not* queued again; nothing new is handed in.  In coroutine mode the remaining handles are queued
+behind what was already queued and the coroutine continues at once; in normal mode they have all run when `co_await`
+returns to plain code.  (The pinned code queued the own handle as well: `c06_asis_await_own_handle_last_resumed_twice`.) -/
+theorem c06_await_own_handle_last {n : Nat} {a : Bool} {s : State} (h : Reachable n a s) {i : Nat} {o : Obj}
+    (hi : s.obj i = some o) (me : Ptr) :
+    ∀ rest, handles s i = rest ++ [me] →
+      (step s (Op.await i me)).1.given = s.given
+      ∧ handles (step s (Op.await i me)).1 i = []
+      ∧ (∀ k, k ≠ i → handles (step s (Op.await i me)).1 k = handles s k)
+      ∧ resumed (step s (Op.await i me)).1 ++ (step s (Op.await i me)).1.queue
+          = resumed s ++ [me] ++ s.queue ++ rest
+      ∧ (s.active = true →
+          resumed (step s (Op.await i me)).1 = resumed s ++ [me]
+          ∧ (step s (Op.await i me)).1.queue = s.queue ++ rest)
+      ∧ (s.active = false →
+          resumed (step s (Op.await i me)).1 = resumed s ++ [me] ++ rest
+          ∧ (step s (Op.await i me)).1.queue = []) := by
+  have I := reachable_inv h
+  intro rest hdec
+  have hc : o.cf / 2 ≠ 0 := by
+    intro hc; have := handles_of_count_zero hi hc; rw [this] at hdec; simp at hdec
+  have h1 := (pop_spec I hi hc).2.1
+  have hrest0 : handles { setObj s i (some { o with cf := o.cf - 2 }) with popped := s.popped ++ [popValue s o] } i
+      = handlesOf s { o with cf := o.cf - 2 } := by
+    simp only [handles, State.obj, setObj, List.getElem?_set, obj_lt hi, if_true]; rfl
+  rw [hrest0] at h1
+  have hd : rest = handlesOf s { o with cf := o.cf - 2 } ∧ me = popValue s o := by
+    rw [h1] at hdec
+    have := List.append_inj' hdec.symm (by simp)
+    exact ⟨this.1, by simpa using this.2⟩
+  obtain ⟨hd1, hd2⟩ := hd
+  have hpv : popValue s o = me := hd2.symm
+  by_cases ha : s.active = true
+  · have hstep : (step s (Op.await i me)).1 = resumeAll (awaitQueue s i o me) [popValue s o] := by
+      simp only [step, hi, awaitObj, hc, ha, if_true, if_false, if_pos hpv]
+    rw [hstep]
+    obtain ⟨-, -, g1, g2, hqq, hr, -, -, -, hgv⟩ := awaitQueue_spec I ha hi hc me
+    have hE : awaitExtra s o me = [] := by simp [awaitExtra, hpv]
+    rw [hE, List.append_nil, ← hd1] at hqq
+    rw [hE, List.append_nil] at hgv
+    generalize hY : resumeAll (awaitQueue s i o me) [popValue s o] = Y at g1 g2 hqq hr hgv ⊢
+    rw [hpv] at hr
+    refine ⟨hgv, g1, g2, ?_, fun _ => ⟨hr, hqq⟩, fun hf => by rw [ha] at hf; cases hf⟩
+    rw [hr, hqq]; simp
+  · have ha' : s.active = false := by simpa using ha
+    have hstep : (step s (Op.await i me)).1
+        = { flushAll (resumeAll (awaitQueue { s with active := true } i o me) [popValue s o]) with active := false } := by
+      simp only [step, hi, awaitObj, hc, ha', if_false, Bool.false_eq_true]
+    rw [hstep]
+    have hi' : ({ s with active := true } : State).obj i = some o := hi
+    obtain ⟨-, -, g1, g2, hqq, hr, -, -, -, hgv⟩ := awaitQueue_spec (inv_active I) rfl hi' hc me
+    have hpv' : popValue { s with active := true } o = popValue s o := rfl
+    have hE : awaitExtra { s with active := true } o me = [] := by simp [awaitExtra, hpv', hpv]
+    have hq0 : s.queue = [] := I.idle ha'
+    rw [hE, List.append_nil] at hqq hgv
+    rw [hpv'] at g1 g2 hqq hr hgv
+    have hqq' : (resumeAll (awaitQueue { s with active := true } i o me) [popValue s o]).queue = rest := by
+      rw [hqq, hd1]; show s.queue ++ handlesOf s { o with cf := o.cf - 2 } = _; rw [hq0]; rfl
+    have hr' : resumed (resumeAll (awaitQueue { s with active := true } i o me) [popValue s o]) = resumed s ++ [me] := by
+      rw [hr, hpv]; rfl
+    have hgv' : (resumeAll (awaitQueue { s with active := true } i o me) [popValue s o]).given = s.given := hgv
+    generalize hY : resumeAll (awaitQueue { s with active := true } i o me) [popValue s o] = Y at g1 g2 hqq' hr' hgv' ⊢
+    have hres : resumed { flushAll Y with active := false } = resumed s ++ [me] ++ rest := by
+      have e : resumed { flushAll Y with active := false } = resumed Y ++ Y.queue := resumed_flushAll Y
+      rw [e, hr', hqq']
+    refine ⟨hgv', ?_, ?_, ?_, (fun hf => by rw [ha'] at hf; cases hf), fun _ => ⟨hres, rfl⟩⟩
+    · rw [handles_of_eq (s' := { flushAll Y with active := false }) (s := Y) rfl rfl]; exact g1
+    · intro k hk; rw [handles_of_eq (s' := { flushAll Y with active := false }) (s := Y) rfl rfl]; exact g2 k hk
+    · rw [hres]; show _ ++ [] = _; rw [hq0]; simp
+
+/-- **Own handle in any position: resumed exactly once.**  A coroutine awaits a suspend point that contains its own
+handle once (first, in the middle, or last) and is not already queued: nothing new is handed in, and afterwards the
+coroutine has been resumed-or-is-queued exactly once more than before — by the symmetric transfer when its handle was
+the last one, through the ready queue otherwise; every other handle of the suspend point likewise exactly once. -/
+theorem c06_await_own_handle {n : Nat} {a : Bool} {s : State} (h : Reachable n a s) {i : Nat} {o : Obj}
+    (hi : s.obj i = some o) (me : Ptr) (hq : me ∉ s.queue) (hmem : me ∈ handles s i) :
+    (step s (Op.await i me)).1.given = s.given
+    ∧ handles (step s (Op.await i me)).1 i = []
+    ∧ ∀ x, (resumed (step s (Op.await i me)).1).count x + (step s (Op.await i me)).1.queue.count x
+        = (resumed s).count x + s.queue.count x + (handles s i).count x := by
+  have hne : handles s i ≠ [] := by intro e; rw [e] at hmem; cases hmem
+  obtain ⟨rest, last, hdec⟩ : ∃ rest last, handles s i = rest ++ [last] :=
+    ⟨(handles s i).dropLast, (handles s i).getLast hne, (List.dropLast_concat_getLast hne).symm⟩
+  have key : ∀ (r q : List Ptr), r ++ q = resumed s ++ [last] ++ s.queue ++ rest →
+      ∀ x, r.count x + q.count x = (resumed s).count x + s.queue.count x + (handles s i).count x := by
+    intro r q e x
+    have := congrArg (List.count x) e
+    rw [hdec]
+    simp only [List.count_append, List.count_cons, List.count_nil] at this ⊢
+    omega
+  by_cases hl : last = me
+  · subst hl
+    have T := c06_await_own_handle_last h hi last rest hdec
+    exact ⟨T.1, T.2.1, key _ _ T.2.2.2.1⟩
+  · have hm : me ∈ rest := by
+      rw [hdec] at hmem
+      simp only [List.mem_append, List.mem_singleton] at hmem
+      rcases hmem with hm | hm
+      · exact hm
+      · exact absurd hm.symm hl
+    have T := c06_await_own_handle_not_last h hi me hq rest last hdec hm hl
+    exact ⟨T.1, T.2.1, key _ _ T.2.2.2.1⟩
 
 /-- **A moved-from or emptied suspend point resumes nothing**: whatever consumes an object that holds no handle
 (`clear`, destructor, `co_await`; for `pop` see `c06_pop`) resumes nothing and enqueues nothing -/
@@ -535,6 +643,17 @@ theorem c06_asis_self_assign_loses_handles :
     let s := runAsIs (init 1 false) [Op.ctorH 0 1, Op.addH 0 2, Op.assign 0 0]
     s.given = [1, 2] ∧ handles s 0 = [] ∧ resumed s = [] ∧ s.queue = [] ∧ s.popped = []
     ∧ s.live = [1] ∧ s.trace = [Ev.alloc 6] := by decide
+
+/-- The unrepaired `await_suspend` with the awaiting coroutine's own handle last (`me = co_await self(); co_await me;`,
+coroutine 99 running under `coro_queue`): the handle is handed in once, the symmetric transfer resumes 99 and the
+guard — which only looked at the remaining handles — queues it as well; when the coroutine ends and the queue is
+flushed it is resumed a second time.  Normal mode (coroutine 100 outside `coro_queue`): both resumptions happen inside
+the `co_await`.  Replayed on the headers in corpus/c06_ownhandle_last.txt; repaired by the `fix:` commit. -/
+theorem c06_asis_await_own_handle_last_resumed_twice :
+    resumed (runAsIs (init 1 true) [Op.ctorH 0 99, Op.await 0 99, Op.finish]) = [99, 99]
+    ∧ resumed (runAsIs (init 1 false) [Op.ctorH 0 100, Op.await 0 100]) = [100, 100]
+    ∧ resumed (run (init 1 true) [Op.ctorH 0 99, Op.await 0 99, Op.finish]) = [99]
+    ∧ resumed (run (init 1 false) [Op.ctorH 0 100, Op.await 0 100]) = [100] := by decide
 
 /-! ## non-vacuity: the hypotheses are satisfiable by non-trivial reachable states -/
 
